@@ -5,6 +5,11 @@ ROOT = os.path.join(os.path.dirname(os.path.abspath(__file__)), "..")
 props = [json.loads(l) for l in open(os.path.join(ROOT, "properties.jsonl")) if l.strip()]
 
 CLAIMS = {
+    "C13": dict(
+        text="Lean 4 theorems: the ID is a function of (printed source, time, sequence number, fragment flag, offset-if-fragment) (id_depends_only); the converse is stated in full (IdInjective), refuted by the concrete K1 witness (id_not_injective, by decide) and proved for bundles with equal source EIDs (id_injective_same_source_partial) using that decimal printing is injective and dash-free; the status-report reference equals the ID (refbundle_eq_id). Tie to the code: id()/Display of the real crate vs model on adversarial pairs; the harness oracle flags every ID collision / split: collisions between different source strings are reported as KNOWN-FINDING id-separator-ambiguity, any other as VIOLATION.",
+        note="Known finding K1 (not repaired): IDs are not injective across different source strings. Trusted: Lean kernel; axioms propext, Quot.sound; model of Display/to_string for u64 and EndpointID.",
+        technique="Lean 4 proof (string-splitting lemmas on '-' and decimal digits; counterexample by decide) + differential correspondence check",
+        design="§6 C13"),
     "C04": dict(
         text="Lean 4 theorems: for every block, the CRC stored/emitted by encoding is be16(CRC-16/X.25) resp. be32(CRC-32C) of the block's own encoding with the CRC value reset to zeros, for CRC type 0 no CRC item exists, the bytes do not depend on prior CRC values (prior_crc_irrelevant), and decode(encode b) passes crcValid (crcValid_decode_encode), for every well-formed bundle and every prior CRC state. Model CRC and catalogue-parameter reference CRC are both pinned to the check values by kernel evaluation. Tie to the code: bundles mutated through the public mutators after a CRC computation are encoded by crate and model; an independent item scanner + bitwise CRC in the harness recomputes every CRC field on the wire; `crc16`/`crc32` ops compare crate, model, catalogue reference and an independent bitwise implementation on random/boundary strings.",
         note="Trusted: Lean kernel; axioms propext, Quot.sound (+Classical.choice in helper lemmas); equality of the reflected bit-serial model CRC and the catalogue-parameter reference CRC is established by correspondence and check values, not by a theorem; the crc crate's table algorithm is not modelled.",
